@@ -37,6 +37,7 @@ func runC02(c *Ctx, r *Report) {
 	r.Floor("C02-e/list-view", 1, "SliceSpaceExpressionContext.array")
 	c02Flags(c, r)
 	c02PosixLongest(c, r, "C02-f/posix-longest")
+	c02MatcherVerbatim(c, r, "C02-i/matcher-verbatim")
 }
 
 // ---------------------------------------------------------------- (a) line numbers
